@@ -6,6 +6,7 @@ package vrand
 import (
 	crand "crypto/rand"
 	"io"
+	"unsafe"
 
 	"verif.local/engine/vsched"
 )
@@ -37,6 +38,7 @@ func Read(b []byte) (int, error) {
 	if !vsched.Active() {
 		return crand.Read(b)
 	}
+	vsched.YieldObj("rand.Read", randObj(), true) // the stream position is shared state
 	s := st()
 	s.log = append(s.log, len(b))
 	if s.src != nil {
@@ -55,6 +57,11 @@ func Read(b []byte) (int, error) {
 	}
 	return len(b), nil
 }
+
+var randMark byte
+
+//go:norace
+func randObj() uintptr { return uintptr(unsafe.Pointer(&randMark)) }
 
 // SetSource installs a harness-controlled byte source for the current execution.
 //
